@@ -110,14 +110,17 @@ def bounds(tier, seed):
         "steps": _dts(tier),
         "run_length_instant": 40 if tier == "quick" else 200,
         "run_length_estimation": 10 if tier == "quick" else 24,
-        "event_offsets_seconds": ["k*dt", "k*dt-1", "k*dt+1", "k*dt-dt/2"],
+        "event_offsets_seconds": ["k*dt", "k*dt-1", "k*dt+1", "k*dt-dt/2", "k*dt+0.3", "k*dt-0.3", "k*dt+0.5", "k*dt+1.7"],
     }
 
 
 # ----------------------------------------------------------------------------------------------- helpers
-def _oracle_step(offset_s: int, dt: int) -> int:
-    """Step whose interval (t_{k-1}, t_k] contains the offset (exact integers)."""
-    return -(-offset_s // dt)
+def _oracle_step(offset_s, dt: int) -> int:
+    """Step whose interval (t_{k-1}, t_k] contains the offset (exact: integers, or Fractions of milliseconds)."""
+    from fractions import Fraction  # noqa: PLC0415
+
+    q = Fraction(str(offset_s)) / dt
+    return -((-q.numerator) // q.denominator)
 
 
 def _impulse(tid, when, vec, frame, planned=False):
@@ -196,6 +199,12 @@ def _instant_events(st, dt, n):
         s3 = 1.0
         for k in range(2, n, 3):
             for d, label in ((-1, "minus1"), (1, "plus1"), (-(dt // 2), "mid")):
+                evs.append({"kind": "impulse_eci", "agent": 10003, "offset": k * dt + d, "vec": [DV * s3, 0.0, 0.0], "rel": label})
+                s3 *= -1
+        # event times that are NOT whole seconds (the span is continuous): a fraction of a second after / before a
+        # boundary -- anything that snaps an event time to the second grid moves these into the wrong step or drops them
+        for k in range(1, n, 2):
+            for d, label in ((0.3, "plus_frac"), (-0.3, "minus_frac"), (0.5, "plus_half"), (1.7, "plus_1.7")):
                 evs.append({"kind": "impulse_eci", "agent": 10003, "offset": k * dt + d, "vec": [DV * s3, 0.0, 0.0], "rel": label})
                 s3 *= -1
     for e in evs:
@@ -391,6 +400,8 @@ def _run_planned(res, item):
         rel, off = ("boundary", k * dt) if k % 2 else ("mid", k * dt - dt // 2)
         if k % 4 == 0 and dt >= 4:
             rel, off = "plus1", k * dt + 1
+        if k % 6 == 5 and dt >= 4:
+            rel, off = "plus_frac", k * dt + 0.3
         evs.append({"kind": "impulse_eci" if k % 3 else "impulse_ntw", "agent": 10001, "offset": off, "rel": rel,
                     "vec": [0.0, DV * sgn, 0.0], "planned": True})
         sgn *= -1
